@@ -233,8 +233,8 @@ fn render(ws: &[String], ins: &[(usize, &str)]) -> String {
 }
 
 pub fn run(ctx: &Ctx) -> i32 {
-    let k = ctx.tier.pick(2, 3);
-    let inputs = gen(k, ctx.tier == speclib::report::Tier::Thorough);
+    let k = ctx.tier.pick(3, 4);
+    let inputs = gen(k, true);
     let mut acc = par_items(&inputs, check);
     acc.sample(json!({"input": inputs[7]}));
     acc.sample(json!({"input": inputs[inputs.len() / 2]}));
@@ -245,7 +245,7 @@ pub fn run(ctx: &Ctx) -> i32 {
             level: "model_checking",
             exhaustive: true,
             rule: "state = base expression with option words inserted at word boundaries; every state is parsed by the real parser and by the reference (last-wins fold, leading run removed, other options read as -true), then compiled and the scan call's thread argument read back; distinct = distinct (thread argument, input length)".into(),
-            bound: format!("24 bases x every insertion of <= {k} options from {:?} at every word boundary{}", OPTS, if k == 3 { " + all leading runs of 4 options" } else { "" }),
+            bound: format!("24 bases x every insertion of <= {k} options from {:?} at every word boundary{}", OPTS, " + all leading runs of 4 options"),
             assumptions: vec!["-maxdepth/-mindepth may be refused with an error; if accepted the value must be visible in the returned options".into()],
             extra: serde_json::Map::new(),
         },
